@@ -6,6 +6,7 @@ mod api;
 mod comp;
 mod config;
 mod gen;
+mod history;
 mod kernel;
 #[cfg(feature = "par")]
 mod par;
@@ -51,6 +52,7 @@ fn main() {
         #[cfg(feature = "decode")]
         "comp" => comp::generate(seed, cases, &mut out),
         "config" => config::generate(seed, cases, flag(&args, "--thorough"), &mut out),
+        "history" => history::generate(seed, cases, &mut out),
         "kernel" => kernel::generate(seed, cases, &mut out),
         #[cfg(feature = "par")]
         "par" => par::generate(seed, cases, &mut out),
